@@ -1,6 +1,6 @@
 import Ptk.Proto
 import Ptk.Gen.PyChars
-import Ptk.Model.C09Vi
+import Ptk.Model.C09Ext
 open Ptk Ptk.Py Ptk.Proto Ptk.C09
 
 /-! Line-protocol driver for the C09 model (kill ring, Emacs kill/yank commands, paste). -/
@@ -36,6 +36,8 @@ structure DS where
   e : St
   max : Nat
   v : VSt
+  py : PyClip := PyClip.init []
+  dyn : DynClip := { rings := [], cur := none }
 
 /-- insertion sort of the register list by name (the harness prints the dict sorted) -/
 def insReg (p : Char × Clip) : List (Char × Clip) → List (Char × Clip)
@@ -93,6 +95,33 @@ def parseCmd : List String → Option Cmd
   | ["reg", a, b, k] => do pure (.region (← decNat a) (← decNat b) (← decBool k))
   | _ => none
 
+def decShiftAct : List String → Option ShiftAct
+  | ["cw"] => some .cw
+  | ["mw"] => some .mw
+  | ["bs"] => some .bs
+  | ["cy"] => some .cy
+  | ["ins", c] => do pure (.ins (Char.ofNat (← decNat c)))
+  | _ => none
+
+def parseECmd : List String → Option ECmd
+  | ["kwc"] => some .killWordC
+  | ["regt", a, b, k, ty] => do pure (.regionTy (← decNat a) (← decNat b) (← decBool k) (← decTy ty))
+  | "shift" :: a :: k :: act => do pure (.shiftSel (← decNat a) (← decInt k) (← decShiftAct act))
+  | toks => (parseCmd toks).map .base
+
+def parseVCmdX : List String → Option VCmdX
+  | ["cc"] => some .cc
+  | toks => (parseVCmd toks).map .base
+
+def encClip (d : Clip) : String := s!"{encTy d.ty} {encStr d.text}"
+
+def encDyn (c : DynClip) : String :=
+  s!"{encClip c.getData} {c.rings.length}" ++ c.rings.foldl (fun acc p => acc ++ " " ++ encRing p.2) ""
+
+def decNats : List String → Option (List Nat)
+  | [] => some []
+  | x :: xs => do pure ((← decNat x) :: (← decNats xs))
+
 def stepLine (ds : DS) (toks : List String) : DS × String :=
   match toks with
   | "einit" :: t :: c :: m :: n :: rest =>
@@ -105,9 +134,9 @@ def stepLine (ds : DS) (toks : List String) : DS × String :=
       | none => (ds, "bad-op")
     | _, _, _, _ => (ds, "bad-op")
   | "e" :: a :: rest =>
-    match decArg a, parseCmd rest with
+    match decArg a, parseECmd rest with
     | some a, some cmd =>
-      let s := step Gen.reSpace ds.max ds.e a cmd
+      let s := stepX Gen.reSpace ds.max ds.e a cmd
       ({ ds with e := s }, encSt s)
     | _, _ => (ds, "bad-op")
   | "vinit" :: t :: c :: m :: n :: rest =>
@@ -120,9 +149,9 @@ def stepLine (ds : DS) (toks : List String) : DS × String :=
       | none => (ds, "bad-op")
     | _, _, _, _ => (ds, "bad-op")
   | "v" :: a :: rest =>
-    match decCount a, parseVCmd rest with
+    match decCount a, parseVCmdX rest with
     | some a, some cmd =>
-      let s := vstep ds.max ds.v a cmd
+      let s := vstepX Gen.isSpace ds.max ds.v a cmd
       ({ ds with v := s }, encVSt s)
     | _, _ => (ds, "bad-op")
   | ["paste", t, c, ty, d, mode, count] =>
@@ -131,6 +160,42 @@ def stepLine (ds : DS) (toks : List String) : DS × String :=
       let r := pasteRaw { text := t, cur := c } { text := d, ty := ty } mode count
       (ds, if pasteOk r then s!"{encStr r.1} {r.2}" else "err")
     | _, _, _, _, _, _ => (ds, "bad-op")
+  | ["cutp", t, c, o, ty, vi] =>
+    match decStr t, decNat c, decNat o, decTy ty, decBool vi with
+    | some t, some c, some o, some ty, some vi =>
+      let r := cutApi t c o ty vi
+      let pr := pasteRaw r.1 r.2 .viBefore 1
+      (ds, s!"{encStr r.1.text} {r.1.cur} {encClip r.2} | " ++
+        (if pasteOk pr then s!"{encStr pr.1} {pr.2}" else "err"))
+    | _, _, _, _, _ => (ds, "bad-op")
+  | ["pinit", x] =>
+    match decStr x with
+    | some x => let p := PyClip.init x; ({ ds with py := p }, s!"{encStr p.sys} {encClip p.getData}")
+    | none => (ds, "bad-op")
+  | ["pset", ty, x] =>
+    match decTy ty, decStr x with
+    | some ty, some x =>
+      let p := ds.py.setData { text := x, ty := ty }
+      ({ ds with py := p }, s!"{encStr p.sys} {encClip p.getData}")
+    | _, _ => (ds, "bad-op")
+  | ["pext", x] =>
+    match decStr x with
+    | some x => let p := ds.py.external x; ({ ds with py := p }, s!"{encStr p.sys} {encClip p.getData}")
+    | none => (ds, "bad-op")
+  | ["prot"] => let p := ds.py.rotate; ({ ds with py := p }, s!"{encStr p.sys} {encClip p.getData}")
+  | "dinit" :: ms =>
+    match decNats ms with
+    | some ms => let c : DynClip := { rings := ms.map fun m => (m, []), cur := none }; ({ ds with dyn := c }, encDyn c)
+    | none => (ds, "bad-op")
+  | ["dsel", i] =>
+    match decCount i with
+    | some i => let c := { ds.dyn with cur := i }; ({ ds with dyn := c }, encDyn c)
+    | none => (ds, "bad-op")
+  | ["dset", ty, x] =>
+    match decTy ty, decStr x with
+    | some ty, some x => let c := ds.dyn.setData { text := x, ty := ty }; ({ ds with dyn := c }, encDyn c)
+    | _, _ => (ds, "bad-op")
+  | ["drot"] => let c := ds.dyn.rotate; ({ ds with dyn := c }, encDyn c)
   | ["rinit", m] =>
     match decNat m with
     | some m => ({ ds with e := { ds.e with ring := [] }, max := m }, encRing [])
